@@ -103,6 +103,9 @@ def build_jobs(tier, rep):
         jobs.append((cfgs[k % len(cfgs)], d))
     if q and len(jobs) > 420000:
         jobs = gen.sample(jobs, 420000, C.SEED + 3)
+    # where a container's map ends (empties inside it, blank lines after it), fence-like lines inside fences
+    for k, d in enumerate(gen.container_tail_docs() + gen.sample(gen.fence_docs(), 4000 if q else 10 ** 9, C.SEED + 6)):
+        jobs.append((cfgs[k % 3], d if k % 5 else d[:-1]))
     rep.cov["bounds"] = {"L1": len(l1), "L0": len(l0), "configs": len(cfgs), "unicode_twin_docs": len(tw), "executed": len(jobs)}
     rep.cov["exhaustive"] = False
     return jobs
